@@ -65,7 +65,7 @@ def skeleton_region(orthogonal, **opts):
     r = object.__new__(MeshRegion)
     o = dict(shiftedmetric=True, orthogonal=orthogonal, geometry_rtol=1.0e-8, curvature_type="curl(b/B)", cap_Bp_ylow_xpoint=False, curvature_smoothing=None)
     o.update(opts)
-    r.user_options = types.SimpleNamespace(**o)
+    r.user_options = Opts(**o)
     r.nx = r.ny = 1
     r.name = "r"
     r.radialIndex = 0
@@ -137,3 +137,20 @@ def add_mla_arith(S):
     ALL = ("centre", "xlow", "ylow", "corners")
     for la, lb in ((ALL, ALL), (ALL, ("centre", "ylow")), (("xlow", "corners"), ALL), (("centre", "xlow"), ("ylow", "corners"))):
         S.contract("MultiLocationArray arithmetic[a: %s; b: %s]" % ("+".join(la), "+".join(lb)), FN_MLA, make_mla_arith_run(la, lb), shape="nx=2, ny=1, every entry a distinct symbol")
+
+
+class Opts(types.SimpleNamespace):
+    """Option stand-in readable as attribute AND as item, as optionsfactory's objects are (a change
+    from `options.x` to `options["x"]` in the code under contract must not crash the contract)."""
+
+    def __getitem__(self, k):
+        return getattr(self, k)
+
+    def __contains__(self, k):
+        return hasattr(self, k)
+
+    def __iter__(self):
+        return iter(vars(self))
+
+    def keys(self):
+        return vars(self).keys()
